@@ -121,6 +121,27 @@ def prove_all():
     tel = lambda mm: Tf(lo, mm) == G(lo - 1) - G(mm - 1)
     _check("TELESCOPE.base", sumdef(Tf, f, lo, lo), tel(lo), out)
     _check("TELESCOPE.step", sumdef(Tf, f, lo, n) + [n >= lo, f(n) == G(n - 1) - G(n), tel(n)], tel(n + 1), out)
+    # TRI-UNIQUE: two solutions of a lower-triangular system with non-zero diagonal agree
+    # (strong induction on the row; the partial sums are related through SUM-EXT, given as an axiom
+    #  for the two summand functions  j -> A(k,j) x(j)  and  j -> A(k,j) y(j))
+    Am = z3.Function("Am", I, I, R)
+    xs = z3.Function("xs", I, R)
+    ys = z3.Function("ys", I, R)
+    bs = z3.Function("bs", I, R)
+    Sx = z3.Function("Sx", I, R)  # Sx(k) = sum_{j<k} Am(k,j) xs(j)
+    Sy = z3.Function("Sy", I, R)
+    k = z3.Int("k")
+    ext_axiom = z3.Implies(z3.ForAll([j], z3.Implies(z3.And(j >= 0, j < k), Am(k, j) * xs(j) == Am(k, j) * ys(j))), Sx(k) == Sy(k))
+    hyps = [
+        k >= 0,
+        k < n,
+        ext_axiom,
+        Sx(k) + Am(k, k) * xs(k) == bs(k),
+        Sy(k) + Am(k, k) * ys(k) == bs(k),
+        Am(k, k) != 0,
+        z3.ForAll([j], z3.Implies(z3.And(j >= 0, j < k), xs(j) == ys(j))),  # strong induction hypothesis
+    ]
+    _check("TRI-UNIQUE.step", hyps, xs(k) == ys(k), out)
     return out
 
 
